@@ -172,6 +172,16 @@ def run(ctx):
     if unmodelled > len(jobs) // 20:
         corr.append(("unmodelled", 0, "", "%d scripts" % unmodelled, "the model declines them", jobs[0][1]))
 
+    # ---------------- stage 2b: every read / write wrapper under a transfer that ends inside a frame (vlib/c15wrap.py) ----------
+    from .. import c15wrap
+    wprobs, wcorr = c15wrap.run(ctx)
+    for (nm, text, sc) in wprobs[:4]:
+        found_input = True
+        ctx.violation("c15-wrapper-" + nm.replace("|", "-"),
+                      "# C15 / C05 violated on the implementation's own transcript (wrapper matrix, one byte short inside a frame): %s\n# case %s (file|side|caller type|i=items f=frames b=raw bytes)\n--- script\n%s"
+                      % (text, nm, sc))
+    corr += [(nm, k, "", a, b, sc) for (nm, k, a, b, sc) in wcorr]
+
     # ---------------- stage 3: K-complete enumeration on the implementation ----------------------------------------
     reps = [L.Rep(*r) for r in L.REPS]          # the whole list fits the quick budget (about 15 s); the tiers differ in the L1 set and timeouts
     prepare(ctx, reps)
